@@ -274,7 +274,7 @@ def state_changes(d, snap):
 
 
 def make_lm(V, tables, default, eos=None, shared=False, dtype=None, layout=None, mutate=None,
-            default_junk=None):
+            default_junk=None, raise_oov=False):
     """`mutate`: how the model treats the state dictionary it is handed (all are legitimate
     language models; the library's own ones build new dictionaries): None = builds new
     dictionaries, "keys" = `update_input` adds its keys to the dictionary it is given, "dict" =
@@ -286,6 +286,9 @@ def make_lm(V, tables, default, eos=None, shared=False, dtype=None, layout=None,
     `dtype`/`layout`: dtype and memory layout of the rows the model returns. The initial state
     may carry `sel` (long tensor of K table indices): batch element `n` then answers from
     `tables[sel[n % K]]` - a language model conditioned on a batched input.
+    `raise_oov`: the model raises IndexError when the history it is asked about holds a token
+    outside the vocabulary - what a language model with an embedding table does (also for tokens
+    after the first eos, which the wrapper's validation ignores).
     tables: per batch element a dict hist_key -> list of V 'n/d' (raw LM outputs); default: list
     of V. The model threads a rolling state through `prev` and raises StateThreadingError when
     the state it is handed is not the state of the history it is asked about. Histories that
@@ -323,6 +326,8 @@ def make_lm(V, tables, default, eos=None, shared=False, dtype=None, layout=None,
             out = []
             for n in range(N):
                 col = [int(x) for x in hist[:idx_, n].tolist()]
+                if raise_oov and any(not (0 <= x < V) for x in col):
+                    raise IndexError("index out of range in self")
                 if eos is not None and eos in col:
                     at[n] = idx_
                     if default_junk is not None:
